@@ -178,4 +178,49 @@ def dro_call():
                     ns, res, lambda s: 3 * abs(_rule_value(ns, s, ns["x"])) + 1, len(ns["x"].event_adapt)))],
                 mode="D", label=lab, bounded=True)
             out += obs
+    # every convex atom that supports evaluation, with a multiplier, a sign and an offset, on event-wise decisions
+    from ..spec import atoms
+    ATOMS = {"A": lambda v: abs(v), "M": lambda v: rsome.norm(v, 1), "I": lambda v: rsome.norm(v, "inf"), "E": lambda v: rsome.norm(v, 2),
+             "S": lambda v: rsome.square(v), "Q": lambda v: rsome.sumsqr(v), "X": lambda v: rsome.exp(v), "L": lambda v: rsome.log(v),
+             "F": lambda v: rsome.softplus(v), "T": lambda v: rsome.power(v, 3)}     # entropy: v*log(v) with an uninterpreted log is outside z3's reach here (ro: convex_call)
+    for labels in (None, ["c", "a", "b"]):
+        for xt, mk in ATOMS.items():
+            def setup_a(c, xt=xt, mk=mk, labels=labels):
+                ns = _build(c, "adapt(1);adapt(0)", labels, affine=False)
+                k = c.fresh_real("k")
+                ns["k"] = k
+                ns["expr"] = k * mk(2 * ns["x"] + 1) + 0.5 * ns["pad"].sum()
+                ns["xt"] = xt
+                return ns
+
+            def want_a(ns, s):
+                vin = 2 * _rule_value(ns, s, ns["x"]) + 1
+                params = (np.array(3), np.array(1)) if ns["xt"] == "T" else None
+                sign = -1 if ns["xt"] in "LP" else 1
+                return ns["k"] * sign * atoms.base(ns["xt"], vin, params) + 0.5 * sum(views.flat(_rule_value(ns, s, ns["pad"])), 0.0)
+            obs, _ = check_function(
+                "rsome.lp:DecConvex.__call__", setup_a, lambda ns: ns["expr"](),
+                [post("value-per-scenario", lambda ns, res: _series_matches(ns, res, lambda s: want_a(ns, s), len(ns["x"].event_adapt)))],
+                mode="D", label=f"atom={xt},labels={'int' if labels is None else 'str'}", bounded=True, allow_exc=(NotImplementedError, ValueError))
+            out += obs
+
+        # bi-affine expressions evaluated at an assigned realisation (and at zero when none is given)
+        for given in (True, False):
+            def setup_r(c, labels=labels, given=given):
+                ns = _build(c, "adapt(1);adapt(0)", labels, affine=False)
+                ns["zv"] = arr([c.fresh_real("zv0"), c.fresh_real("zv1")])
+                ns["expr"] = (ns["x"] * ns["z"]).sum() + ns["pad"][0] + 2 * ns["z"][1]
+                return ns
+
+            def want_r(ns, s, given=given):
+                xs = views.flat(_rule_value(ns, s, ns["x"]))
+                zv = ns["zv"] if given else [0.0, 0.0]
+                return xs[0] * zv[0] + xs[1] * zv[1] + views.flat(_rule_value(ns, s, ns["pad"]))[0] + 2 * zv[1]
+            obs, _ = check_function(
+                "rsome.lp:DecRoAffine.__call__", setup_r,
+                (lambda ns: ns["expr"](ns["z"].assign(ns["zv"]))) if given else (lambda ns: ns["expr"]()),
+                [post("value-per-scenario-at-the-assigned-realisation", lambda ns, res, given=given: _series_matches(
+                    ns, res, lambda s: want_r(ns, s, given), len(ns["x"].event_adapt)))],
+                mode="D", label=f"assigned={given},labels={'int' if labels is None else 'str'}", bounded=True)
+            out += obs
     return out
